@@ -1,4 +1,5 @@
 import FGVerif.Proofs.C12
+import FGVerif.Proofs.C12Forest
 #print axioms C12.spec_holds
 #print axioms C12.only_adds_hydrogens
 #print axioms C12.fresh_ids
@@ -8,3 +9,31 @@ import FGVerif.Proofs.C12
 #print axioms C12.specCheck_sound
 #print axioms C12.valence_table_main_group
 #print axioms C12.valence_table_exact
+-- completion preserves the hypotheses of C03/C04/C05 (Proofs/C12Forest.lean)
+#print axioms C12.mem_neighbors_extend
+#print axioms C12.extension_with
+#print axioms C12.wf03_extend_iff
+#print axioms C12.forest_extend_iff
+#print axioms C12.addImplicitHydrogens_wf03
+#print axioms C12.addImplicitHydrogens_forest
+#print axioms C12.addImplicitHydrogens_wf03_iff
+#print axioms C12.addImplicitHydrogens_forest_iff
+#print axioms C12.addImplicitHydrogens_cyclic
+#print axioms C12.addImplicitHydrogens_wfB
+#print axioms C12.spec_holds_c03
+-- the well-formedness notions related (Proofs/GraphWF.lean)
+#print axioms GraphWF.c12_iff
+#print axioms GraphWF.c12_of_c03
+#print axioms GraphWF.c12_of_c11
+#print axioms GraphWF.c03_of_c11
+#print axioms GraphWF.c11_of_c03
+#print axioms GraphWF.c03_iff_c11
+#print axioms GraphWF.c03_not_of_c11_loop
+#print axioms GraphWF.c11_not_of_c03_multi
+#print axioms GraphWF.wfB_iff
+#print axioms GraphWF.wellFormed_iff
+#print axioms GraphWF.simple_iff
+#print axioms GraphWF.noLoopB_iff
+#print axioms GraphWF.wfB_iff_checkers
+#print axioms GraphWF.c12_decide_of_wfB
+#print axioms GraphWF.c12_decide_of_wellFormed
